@@ -206,4 +206,41 @@ theorem readExact_spec (a : Asset) (n : Nat) :
     ReadExactSpec a n (a.readExact n).1 (a.readExact n).2 :=
   readExactGo_spec n a n (Nat.le_refl n)
 
+/-- without scripted failures a read inside the data delivers at least one byte, whatever the chunking -/
+theorem read_progress (a : Asset) (w : Nat) (hf : a.sc.readFails = []) (hw : 0 < w) (hp : a.pos < a.len) :
+    ∃ k, (a.read w).1 = .ok (k + 1) := by
+  unfold Asset.read
+  simp only [hf, List.contains_nil, Bool.false_eq_true, if_false]
+  have : ¬ a.len ≤ a.pos := by omega
+  simp only [this, if_false]
+  by_cases hc : a.sc.chunk a.reads = 0
+  · simp only [hc, if_true]
+    exact ⟨min w (a.len - a.pos) - 1, by congr 1; omega⟩
+  · simp only [hc, if_false]
+    exact ⟨min (min w (a.len - a.pos)) (a.sc.chunk a.reads) - 1, by congr 1; omega⟩
+
+/-- a failure-free asset with enough bytes left satisfies `read_exact`, for every chunking and
+both end-of-file conventions -/
+theorem readExactGo_ok (fuel : Nat) : ∀ (a : Asset) (rem : Nat), rem ≤ fuel → a.sc.readFails = [] →
+    a.pos + rem ≤ a.len → (readExactGo a rem fuel).1 = .ok () := by
+  induction fuel with
+  | zero => intro a rem h _ _; have : rem = 0 := by omega
+            subst this; rfl
+  | succ f ih =>
+    intro a rem h hf hp
+    unfold readExactGo
+    by_cases h0 : rem = 0
+    · simp [h0]
+    · simp only [h0, if_false]
+      obtain ⟨k, hk⟩ := read_progress a rem hf (by omega) (by omega)
+      have hok := read_ok a rem (k + 1) hk
+      have hsc := read_sc a rem
+      have hl := read_len a rem
+      generalize a.read rem = rd at *
+      obtain ⟨r1, a1⟩ := rd
+      simp only at hk hok hsc hl
+      subst hk
+      simp only
+      exact ih a1 (rem - (k + 1)) (by omega) (by rw [hsc]; exact hf) (by omega)
+
 end ZxVerif.Loaders
